@@ -306,12 +306,12 @@ def k_models_init(P, names, order):
 
 class ModelsInitOrder(Obligation):
     functions = ["pyopenapi_gen.emitters.models_emitter:ModelsEmitter._generate_init_py_content"]
-    alphabet = ranges_of_pts([ord(c) for c in "ABab_1"])
+    alphabet = ranges_of_pts([ord(c) for c in "ABab1"])  # no separators: names that differ ignoring case stay distinct class names
 
     def __init__(self, n, nlen):
         self.n, self.nlen = n, nlen
         self.name = "models_init_order/n=%d/len=%d" % (n, nlen)
-        self.bounds = {"schemas": n, "name_len": nlen, "alphabet": "ABab_1", "orders": "all permutations"}
+        self.bounds = {"schemas": n, "name_len": nlen, "alphabet": "ABab1", "orders": "all permutations"}
         self.perms = list(itertools.permutations(range(n)))
 
     def make_inputs(self, e):
@@ -695,7 +695,6 @@ def specs(tier):
     out.append((MOD, "mk_models_init", (3, 1)))
     if not q:
         out.append((MOD, "mk_models_init", (3, 2)))
-        out.append((MOD, "mk_models_init", (4, 1)))
     from props import c09h
 
     out.extend(c09h.specs(tier, "c09"))
